@@ -569,7 +569,21 @@ def _redirect_outside_default_app(case, what, m):
     return any(walk(c) for c in case['calls'])
 
 
-PREDICATES = {'redirect_outside_default_app': _redirect_outside_default_app}
+def _listener_in_handler(case, what, m):
+    """the failure is about what a listener registered with request.on() inside a handler heard, and the case has
+    such a handler next to another thread"""
+    if case.get('kind') != 'arr' or '(listen)' not in str(what) or len(case.get('calls', [])) < 2:
+        return False
+
+    def walk(c):
+        if c.get('construct'):
+            return False
+        return any(a[0] == 'listen' or (a[0] == 'call' and walk(a[1])) for a in c['script'])
+    return any(walk(c) for c in case['calls'])
+
+
+PREDICATES = {'redirect_outside_default_app': _redirect_outside_default_app,
+              'listener_registered_in_handler': _listener_in_handler}
 
 MANIFEST = dict(
     text=('Proof: theorems C10_instance_independent and C10_nested_calls (Coq, closed under the global context) state for '
